@@ -323,7 +323,12 @@ _APPLY_NS = None
 def apply_element(key, args, ctx=None, inputs=(), timeout=10.0):
     """Run one element on a stack holding `args` (last = top).  Returns (stack, exc, ctx)."""
     global _APPLY_NS
-    code = element_code(key)
+    try:
+        code = element_code(key)
+    except BaseException as e:  # noqa  (a template that does not compile is C02's finding; here: out of domain)
+        if isinstance(e, KeyboardInterrupt):
+            raise
+        return list(args), e, ctx
     if _APPLY_NS is None:
         _APPLY_NS = base_namespace()
     ns = _APPLY_NS
